@@ -13,7 +13,7 @@ os.environ.setdefault("PYTHONDONTWRITEBYTECODE", "1")
 from mc import harness  # noqa
 
 ENGINE = {
-    "C01": "E2", "C02": "E1", "C03": "E1", "C04": "E1", "C05": "E1", "C06": "E1+E2", "C07": "E1",
+    "C01": "E2", "C02": "E1", "C03": "E1+E2", "C04": "E1", "C05": "E1", "C06": "E1+E2", "C07": "E1",
     "C08": "E1+E3", "C09": "E1+E2", "C10": "E1", "C11": "E1", "C12": "E1", "C13": "E1", "C14": "E1",
     "C15": "E1+E2", "C16": "E1", "C17": "E2", "C18": "E1", "C19": "E1", "C20": "E1",
 }
